@@ -115,6 +115,9 @@ func runMutant(ps *PropSpec, m Mutant, opts Options) MutantResult {
 	}
 	for _, r := range out.Results {
 		for _, ob := range r.Obls {
+			if os.Getenv("GVC_SELFTEST_DEBUG") != "" && strings.Contains(ob.Name, os.Getenv("GVC_SELFTEST_DEBUG")) {
+				fmt.Printf("   [debug] %s %s %s %.2fs\n", ob.Name, ob.Res.Verdict, ob.Res.Solver, ob.Res.TimeS)
+			}
 			if ob.Res.Verdict != "unsat" && !known[ob.Name] {
 				res.Failed = append(res.Failed, ob.Name)
 			}
